@@ -312,7 +312,8 @@ def expected_pct(v, unit, W, H, horizontal):
 
 def bounded_writers(ctx, b):
     rng = random.Random(ctx.seed)
-    vals = [0, 1, 10, 64, 36.5, 100, 33.333, 12.5, 640, 7]
+    # (127.99 of 640 is 19.998%: rounds to a whole number without being one; 0.01 of 640 rounds to 0)
+    vals = [0, 1, 10, 64, 36.5, 100, 33.333, 12.5, 640, 7, 127.99, 0.01, 63.99, 255.99]
     videos = [(640, 360), (1920, 1080), (720, 720), (None, None), (640, None), (None, 360), (1080, 1920)]
     n = 120 if not ctx.thorough else 2000
     # deterministic prefix: equal values on both axes, square video, landscape then portrait -
@@ -320,6 +321,8 @@ def bounded_writers(ctx, b):
     fixed = [(u, wh, v, v, he, v, v, lvl, ft)
              for u in UnitEnum for wh in [(720, 720), (1920, 1080), (1080, 1920)] for v in (10, 7)
              for he in (False, True) for lvl in ("node", "language") for ft in (True, False)]
+    fixed += [(UnitEnum.PIXEL, (640, 360), 127.99, 71.99, False, 10, 10, lvl, False) for lvl in ("node", "caption")]
+    fixed += [(UnitEnum.PIXEL, (640, 360), 0.01, 0.01, False, 10, 10, "node", False)]
     for i in range(len(fixed) + n):
         if i < len(fixed):
             unit, (W, H), ox, oy, has_ext, ew, eh, level, fit = fixed[i]
